@@ -22,7 +22,7 @@
 import inspect
 import ast
 from functools import update_wrapper, partial
-from weakref import WeakKeyDictionary
+from weakref import WeakKeyDictionary, ref
 
 
 def get_funcsigs():
@@ -89,15 +89,19 @@ class OverrideableDataDesc(object):
             func = getter(self.func, instance, owner)
 
         try:
-            return self.insts[func]
+            ret = self.insts[func]()
         except KeyError:
-            pass
+            ret = None
+        if ret is not None:
+            return ret
 
         if func is self.func:
             ret = self
         else:
             ret = self.custom_getter(func, original=self)
-        self.insts[func] = ret
+        # ret refers to func, the key: held strongly, the entry (and the
+        # instance func is bound to) could never go away
+        self.insts[func] = ref(ret)
         return ret
 
 def safe_get(obj, instance, owner):
